@@ -87,7 +87,7 @@ def main():
                 'confirmed_in_scratch_worktree': {'existing_suite_passes_with_change': suite_ok, 'demo_fails_with_change': demo_fail,
                                                   'demo_passes_without_change': demo_pass, 'demo_features': feats},
                 'what_was_run': ['tools/confirm_seed.sh %s %s %s' % (wt, sd, feats),
-                                 'tools/seed_matrix.py --checks=own,C01,C02,C12,C17 (quick tier, change applied in the scratch worktree via TAU_REPO)'],
+                                 'tools/seed_matrix.py --checks=%s (quick tier, change applied in the scratch worktree via TAU_REPO)' % ','.join(ran)],
                 'applies_to_repo_head': head, 'checks_run_against_it': ran,
                 'caught_by': caught, 'inconclusive': incon, 'kept': keep,
             }
